@@ -8,6 +8,6 @@ CONSTANTS
   AllowSplit = TRUE
   StartCached = TRUE
   MarkBeforePut = TRUE
-  AllowReplace = FALSE
+  AllowReplace = TRUE
   DelBeforeAvail = TRUE
-INVARIANTS NoPanic OneEstablisher EstablisherOnlyWhileUnavailable StableEnd
+INVARIANTS NoPanic OneEstablisher EstablisherOnlyWhileUnavailable StableEnd NoSendAfterReplace
